@@ -61,7 +61,11 @@ def dollar_quote_literal(text: str) -> str:
     quote = '$$'
     qq = 0
 
-    while quote in text:
+    # The literal is read back up to the first occurrence of the closing
+    # quote, so the quote must not occur in the text, nor be completed early
+    # by the text's tail running into the closing quote (e.g. text ending
+    # with "$" before a closing "$$").
+    while quote in text + quote[:-1]:
         if qq % 16 < 10:
             qq += 10 - qq % 16
 
